@@ -132,6 +132,7 @@ def enum_ops(s, *, invalid=True):
     for x in nodes:
         for which in ("prepend_sibling", "append_sibling"):
             yield {"op": "sibling", "node": x.uid, "data": "NEW", "which": which}
+            yield {"op": "sibling", "node": x.uid, "data": "NEW", "which": which, "data_id": "EXPL"}
     # node copies
     for src in nodes:
         for p in holders:
@@ -241,6 +242,8 @@ def enum_ops(s, *, invalid=True):
             for b in [None, True] + ([["node", m.kids(P_)[0].uid], ["idx", len(m.kids(P_)) - 1]] if m.kids(P_) else []):
                 yield {"op": "addtree", "parent": p, "spec": [["fa", None, [["fa1", None, []]]], ["fb", None, []], ["fc", None, []]], "deep": None, "before": b}
             yield {"op": "addtree", "parent": p, "spec": [["fa", None, [["fa1", None, []]]], ["fb", None, []]], "deep": True, "before": None, "via": "copy_to"}
+            for b in [None, True, ["idx", 0]] + ([["node", m.kids(P_)[-1].uid]] if m.kids(P_) else []):
+                yield {"op": "addtree", "parent": p, "spec": [], "deep": None, "before": b}  # an empty tree
             if m.kids(P_):
                 yield {"op": "addtree", "parent": p, "spec": [["fa", None, []], [m.kids(P_)[0].data, None if m.kids(P_)[0].data_id == m.rule(m.kids(P_)[0].data) else m.kids(P_)[0].data_id, []]], "deep": None, "before": None}
 
